@@ -5,7 +5,7 @@ import (
 	"math/big"
 
 	"github.com/aergoio/aergo/v2/contract/name"
-		"github.com/aergoio/aergo/v2/fee"
+	"github.com/aergoio/aergo/v2/fee"
 	"github.com/aergoio/aergo/v2/state"
 	"github.com/aergoio/aergo/v2/state/statedb"
 	"github.com/aergoio/aergo/v2/types"
@@ -94,7 +94,7 @@ func vfLgGov(mode int, ob string) {
 		if err != nil {
 			vf.Fail("harness-setup")
 		}
-		scs, _ := statedb.OpenContractState(nmAcc.ID(), nmAcc.State(), w.bs.StateDB)
+		scs, _ := statedb.OpenContractState(nmAcc.IDNoPadding(), nmAcc.State(), w.bs.StateDB)
 		ownerAddr := addrB
 		if shape == 6 {
 			ownerAddr = addrA
@@ -181,49 +181,49 @@ func vfLgGov(mode int, ob string) {
 	}
 	vf.Reach(ob + ".success")
 	// governance is free of charge: no fee, no reward
-	vf.Assert(dReward.Sign() == 0, ob)
-	vf.Assert(len(rc.FeeUsed) == 0, ob)
+	vf.Assert(dReward.Sign() == 0, ob+".free")
+	vf.Assert(len(rc.FeeUsed) == 0, ob+".free")
 	// F14: v1setOwner with the sender itself as new owner: the credit of the name account's balance to the owner is
 	// overwritten by executeTx's later sender.PutState()
 	f14 := shape == 4
-	vf.AssertKnown(post.acc.sum().Cmp(pre.acc.sum()) == 0, ob, "F14-setowner-self-burns-name-balance", f14)
-	vf.Assert(post.acc.nonce[vfLgSender] == body.Nonce, ob)
-	vf.Assert(post.acc.same(pre.acc, vfLgBystander), ob)
-	vf.Assert(post.acc.same(pre.acc, vfLgVault), ob)
+	vf.AssertKnown(post.acc.sum().Cmp(pre.acc.sum()) == 0, ob+".sum", "F14-setowner-self-burns-name-balance", f14)
+	vf.Assert(post.acc.nonce[vfLgSender] == body.Nonce, ob+".nonce")
+	vf.Assert(post.acc.same(pre.acc, vfLgBystander), ob+".bystander")
+	vf.Assert(post.acc.same(pre.acc, vfLgVault), ob+".bystander")
 	amt := body.GetAmountBigInt()
 	lostA := new(big.Int).Sub(pre.acc.bal[vfLgSender], post.acc.bal[vfLgSender])
 	switch shape {
 	case 0:
 		// stake: A -> aergo.system, staking total grows by the same amount
-		vf.Assert(lostA.Cmp(amt) == 0, ob)
-		vf.Assert(new(big.Int).Sub(post.acc.bal[vfLgSystem], pre.acc.bal[vfLgSystem]).Cmp(amt) == 0, ob)
+		vf.Assert(lostA.Cmp(amt) == 0, ob+".move")
+		vf.Assert(new(big.Int).Sub(post.acc.bal[vfLgSystem], pre.acc.bal[vfLgSystem]).Cmp(amt) == 0, ob+".move")
 		dTotal := new(big.Int).Sub(new(big.Int).SetBytes(post.total), new(big.Int).SetBytes(pre.total))
-		vf.Assert(dTotal.Cmp(amt) == 0, ob)
-		vf.Assert(post.acc.same(pre.acc, vfLgName), ob)
+		vf.Assert(dTotal.Cmp(amt) == 0, ob+".move")
+		vf.Assert(post.acc.same(pre.acc, vfLgName), ob+".move")
 	case 7:
 		// unstake: aergo.system -> A of the actual adjustment; total shrinks by the same amount
 		gain := new(big.Int).Neg(lostA)
-		vf.Assert(new(big.Int).Sub(pre.acc.bal[vfLgSystem], post.acc.bal[vfLgSystem]).Cmp(gain) == 0, ob)
+		vf.Assert(new(big.Int).Sub(pre.acc.bal[vfLgSystem], post.acc.bal[vfLgSystem]).Cmp(gain) == 0, ob+".move")
 		dTotal := new(big.Int).Sub(new(big.Int).SetBytes(pre.total), new(big.Int).SetBytes(post.total))
-		vf.Assert(dTotal.Cmp(gain) == 0, ob)
-		vf.Assert(gain.Sign() >= 0, ob)
+		vf.Assert(dTotal.Cmp(gain) == 0, ob+".move")
+		vf.Assert(gain.Sign() >= 0, ob+".move")
 	case 2:
 		// name fee: A -> aergo.name
-		vf.Assert(lostA.Cmp(amt) == 0, ob)
-		vf.Assert(new(big.Int).Sub(post.acc.bal[vfLgName], pre.acc.bal[vfLgName]).Cmp(amt) == 0, ob)
+		vf.Assert(lostA.Cmp(amt) == 0, ob+".move")
+		vf.Assert(new(big.Int).Sub(post.acc.bal[vfLgName], pre.acc.bal[vfLgName]).Cmp(amt) == 0, ob+".move")
 	case 5:
 		// name fee: A -> owner B
-		vf.Assert(lostA.Cmp(amt) == 0, ob)
-		vf.Assert(new(big.Int).Sub(post.acc.bal[vfLgOther], pre.acc.bal[vfLgOther]).Cmp(amt) == 0, ob)
-		vf.Assert(post.acc.same(pre.acc, vfLgName), ob)
+		vf.Assert(lostA.Cmp(amt) == 0, ob+".move")
+		vf.Assert(new(big.Int).Sub(post.acc.bal[vfLgOther], pre.acc.bal[vfLgOther]).Cmp(amt) == 0, ob+".move")
+		vf.Assert(post.acc.same(pre.acc, vfLgName), ob+".move")
 	case 6:
 		// the sender owns the name contract: pays itself
-		vf.Assert(lostA.Sign() == 0, ob)
+		vf.Assert(lostA.Sign() == 0, ob+".move")
 	case 3:
 		// owner B receives the whole balance of aergo.name
-		vf.Assert(post.acc.bal[vfLgName].Sign() == 0, ob)
-		vf.Assert(new(big.Int).Sub(post.acc.bal[vfLgOther], pre.acc.bal[vfLgOther]).Cmp(pre.acc.bal[vfLgName]) == 0, ob)
-		vf.Assert(lostA.Sign() == 0, ob)
+		vf.Assert(post.acc.bal[vfLgName].Sign() == 0, ob+".move")
+		vf.Assert(new(big.Int).Sub(post.acc.bal[vfLgOther], pre.acc.bal[vfLgOther]).Cmp(pre.acc.bal[vfLgName]) == 0, ob+".move")
+		vf.Assert(lostA.Sign() == 0, ob+".move")
 	}
 	vf.Observe("outcome", rc.Status)
 }
@@ -234,4 +234,3 @@ func vfLgAccount(w *vfLedger, i int) (*state.AccountState, error) {
 
 func VF_C01_b()     { vfLgGov(1, "C01.b") }
 func VF_C03_a_gov() { vfLgGov(2, "C03.a.gov") }
-
